@@ -290,6 +290,9 @@ func Or(a, b *Term) *Term {
 	if both(a, b) {
 		return BV(a.w, a.val|b.val)
 	}
+	if r := orSlices(a, b); r != nil {
+		return r
+	}
 	if isZero(a) {
 		return b
 	}
@@ -934,4 +937,138 @@ var opNames = map[Op]string{
 type Assignment struct {
 	BV   map[string]uint64
 	Bool map[string]bool
+}
+
+// bit-slice view: t = (src[hi:lo] placed at bit position pos), zero elsewhere
+type bslice struct {
+	src     *Term
+	hi, lo  int
+	pos     int
+}
+
+func asSlices(t *Term) ([]bslice, bool) {
+	switch t.op {
+	case OpConst:
+		if t.val == 0 {
+			return nil, true
+		}
+		return nil, false
+	case OpVar:
+		return []bslice{{t, t.w - 1, 0, 0}}, true
+	case OpExtract:
+		in, ok := asSlices(t.args[0])
+		if !ok {
+			return nil, false
+		}
+		hi, lo := int(t.val>>8), int(t.val&0xff)
+		var out []bslice
+		for _, s := range in {
+			// slice occupies [pos, pos+len)
+			l := s.hi - s.lo + 1
+			a, b := s.pos, s.pos+l-1
+			if b < lo || a > hi {
+				continue
+			}
+			na, nb := a, b
+			if na < lo {
+				na = lo
+			}
+			if nb > hi {
+				nb = hi
+			}
+			out = append(out, bslice{s.src, s.lo + (nb - a), s.lo + (na - a), na - lo})
+		}
+		return out, true
+	case OpZExt:
+		return asSlices(t.args[0])
+	case OpShl:
+		c, ok := t.args[1].Const()
+		if !ok {
+			return nil, false
+		}
+		in, ok2 := asSlices(t.args[0])
+		if !ok2 {
+			return nil, false
+		}
+		var out []bslice
+		for _, s := range in {
+			l := s.hi - s.lo + 1
+			np := s.pos + int(c)
+			if np >= t.w {
+				continue
+			}
+			if np+l > t.w {
+				l = t.w - np
+			}
+			out = append(out, bslice{s.src, s.lo + l - 1, s.lo, np})
+		}
+		return out, true
+	case OpConcat:
+		h, ok1 := asSlices(t.args[0])
+		l, ok2 := asSlices(t.args[1])
+		if !ok1 || !ok2 {
+			return nil, false
+		}
+		out := append([]bslice{}, l...)
+		for _, s := range h {
+			s.pos += t.args[1].w
+			out = append(out, s)
+		}
+		return out, true
+	case OpOr:
+		a, ok1 := asSlices(t.args[0])
+		b, ok2 := asSlices(t.args[1])
+		if !ok1 || !ok2 {
+			return nil, false
+		}
+		return append(append([]bslice{}, a...), b...), true
+	}
+	return nil, false
+}
+
+// orSlices: a|b where both are positioned slices of one source that tile a contiguous
+// range: rebuild as a single extract / the source itself.
+func orSlices(a, b *Term) *Term {
+	if a.op != OpZExt && a.op != OpShl && a.op != OpOr && a.op != OpConcat {
+		return nil
+	}
+	sa, ok1 := asSlices(a)
+	sb, ok2 := asSlices(b)
+	if !ok1 || !ok2 {
+		return nil
+	}
+	all := append(append([]bslice{}, sa...), sb...)
+	if len(all) < 2 {
+		return nil
+	}
+	src := all[0].src
+	for _, s := range all {
+		if s.src != src {
+			return nil
+		}
+	}
+	// sort by pos
+	for i := 1; i < len(all); i++ {
+		for j := i; j > 0 && all[j].pos < all[j-1].pos; j-- {
+			all[j], all[j-1] = all[j-1], all[j]
+		}
+	}
+	// contiguous in both pos and source bits, starting at pos 0
+	if all[0].pos != 0 {
+		return nil
+	}
+	lo := all[0].lo
+	next, nsrc := 0, lo
+	for _, s := range all {
+		if s.pos != next || s.lo != nsrc {
+			return nil
+		}
+		l := s.hi - s.lo + 1
+		next += l
+		nsrc += l
+	}
+	if nsrc-1 >= src.w {
+		return nil
+	}
+	return ZExt(Extract(src, nsrc-1, lo), a.w)
 }
